@@ -240,6 +240,9 @@ def run(ctx, params):
         size = rng.choice([1, 2, 3, 5, 10, 25, params["max"]])
         t = nodegen.random_tree(rng, size, names=nodegen.NAMES if rng.random() < 0.5 else None)
         judge(ctx, t, "api-built")
+        if i % 17 == 0:
+            plain = snapshot.to_plain(t)
+            ctx.later(lambda c, p=plain: judge(c, snapshot.from_plain(Node, p, fresh_ids=False), "api-built (judged again at the end)"))
         if i % 499 == 0:
             ctx.sample({"origin": "api-built", "tree": snapshot.to_plain(t) if size <= 3 else {"nodes": size}})
         emlkit.discard(t)
